@@ -100,12 +100,13 @@ PROPS = {
         "assumptions": COMMON_ASSUME,
     },
     "C07": {
-        "rules": ["R-COPYBOUND", "R-VARFIELD", "R-CHUNKINIT", "R-ITERSTATE", "R-STATE", "R-DERIVED", "R-FIXEDBUF", "R-INITCOVER", "R-EXTENT", "R-KILLUSE", "R-DANGLING", "R-ALPHAGUARD", "R-DEDUP", "R-IDGUARD", "R-SHIFT", "R-CLAMP", "R-ZEROFILL", "R-GROW", "R-SLACK", "R-ALLOCFORM", "R-LOCKSET", "R-BYTEINDEX", "R-REFCOUNT", "R-COUNTERWIDTH", "R-BUCKET", "R-PREDINDEX"],
+        "rules": ["R-DELETECAST", "R-COPYBOUND", "R-VARFIELD", "R-CHUNKINIT", "R-ITERSTATE", "R-STATE", "R-DERIVED", "R-FIXEDBUF", "R-INITCOVER", "R-EXTENT", "R-KILLUSE", "R-DANGLING", "R-ALPHAGUARD", "R-DEDUP", "R-IDGUARD", "R-SHIFT", "R-CLAMP", "R-ZEROFILL", "R-GROW", "R-SLACK", "R-ALLOCFORM", "R-LOCKSET", "R-BYTEINDEX", "R-REFCOUNT", "R-COUNTERWIDTH", "R-BUCKET", "R-PREDINDEX"],
         "explanation": "Structural preconditions of memory safety, each a necessary condition with confirmed instances: no operation consults state the "
                        "creation path never set, saved extents equal allocated extents, nothing reachable from a dictionary is freed by an operation or "
                        "left dangling by a loader, pattern bytes are range-checked before indexing, duplicate iterators have their sentinel, ids are "
                        "guarded, shifts stay below the operand width over the whole legal domain, bucket size 0/1 cannot reach the arithmetic.",
-        "decided": ["a block copy whose count is a caller-supplied query length goes into a buffer whose extent covers that length or is tested against it (R-COPYBOUND; found the XBW string iterator, fixed a39b29e)",
+        "decided": ["no object is deleted through an explicit cast to a class unrelated to its own (R-DELETECAST; found the XBW loader, fixed d7ae549)",
+                    "a block copy whose count is a caller-supplied query length goes into a buffer whose extent covers that length or is tested against it (R-COPYBOUND; found the XBW string iterator, fixed a39b29e)",
                     "callers of the libcds variable-field primitives form the end of a possibly empty field at size_t width, so that the empty-field test of the primitives holds (R-VARFIELD; found BitSequenceRRR::build / rank1, fixed 4286cb7)",
                     "every field an iterator's hasNext/next/size reads is assigned by each constructor of the concrete iterator class (R-ITERSTATE; found the block table iterator's size, fixed 1935db3)",
                     "a scalar member computed from the data by the building path and read by queries/getSize/save is not left at a constant on the load path: it is read back or recomputed (R-DERIVED)",
